@@ -246,8 +246,12 @@ func includeHeader(hdr string, signedHdrs []string) bool {
 }
 
 func IsBigDataAction(ctx *fiber.Ctx) bool {
-	if ctx.Method() == http.MethodPut && len(strings.Split(ctx.Path(), "/")) >= 3 {
-		if !ctx.Request().URI().QueryArgs().Has("tagging") && ctx.Get("X-Amz-Copy-Source") == "" && !ctx.Request().URI().QueryArgs().Has("acl") {
+	pathParts := strings.Split(ctx.Path(), "/")
+	// only object level PUTs (a non empty key) carry object data
+	if ctx.Method() == http.MethodPut && len(pathParts) >= 3 && pathParts[2] != "" {
+		args := ctx.Request().URI().QueryArgs()
+		if !args.Has("tagging") && ctx.Get("X-Amz-Copy-Source") == "" && !args.Has("acl") &&
+			!args.Has("retention") && !args.Has("legal-hold") {
 			return true
 		}
 	}
